@@ -27,12 +27,12 @@ func runC16(r *oblig.Report) {
 		return
 	}
 	w := e8grammar.Load(load.RepoRoot())
-	r.Rule("R9.1", "instance-table", "pre-pass keeps line structure and prefixes", 6)
+	r.Rule("R9.1", "instance-table", "pre-pass keeps line structure and prefixes", 4)
 	r.Rule("R9.2", "instance-table", "one-based to zero-based exactly once, unconditionally; every syntax error recorded", 3)
 	r.Rule("R9.3", "instance-table", "listener-raised errors point at the offending name", 5)
 	r.Rule("R9.4", "instance-table", "merge errors pair file, lines and finder", 6)
 	r.Rule("R9.5", "instance-table", "line finders are delimited and scoped", 5)
-	e9pos.PrePassShape(c.P, r, "R9.1")
+	prePassClauses(c.P, r, "R9.1", "join", "one-line-out-per-line-in", "split", "prefix", "line-loop")
 	e9pos.LineConversion(c.P, r, "R9.2")
 	e5path.SyntaxErrorAlwaysRecords(c.P, r, "R9.2")
 	nameRules, err := w.NameRules()
@@ -45,4 +45,5 @@ func runC16(r *oblig.Report) {
 	r.Rule("R9.6", "instance-table", "the column of a merge conflict is the first occurrence of the name on its line", 1)
 	e9pos.ColumnIsFirstOccurrence(c.P, r, "R9.6")
 	e9pos.Finders(c.P, r, "R9.5", w.LexerG)
+	noPackageState(c.P, r, c.Reach(c.Entries("transformer.TransformDSLToProto", "transformer.TransformModularDSLToProto", "transformer.TransformModuleFilesToModel")))
 }
